@@ -4,6 +4,7 @@ import MsiProofs.Lemmas.GlobalInv
 import MsiProofs.Lemmas.GlobalInvUpd
 import MsiProofs.Lemmas.SortUpd
 import MsiProofs.Lemmas.Lifecycle
+import MsiProofs.Lemmas.AsciiLifecycle
 /-
 C08, as an invariant of the operations — reference counts stay exact.  `AccountedWith slack p cells`:
 for every pool entry, (number of cells referring to it) + slack = its reference count.  Insert and
@@ -89,5 +90,14 @@ def createTable_full := @MsiProofs.CreateTable.createTable_full
 def dropTable_full := @MsiProofs.DropTable.dropTable_full
 /-- releasing a dropped table's strings: the other tables' cells stay accounted with the same slack -/
 def release_stage := @MsiProofs.DropTable.release_stage
+
+/-- **the pool stays expressible in the format in every reachable state**: every count below
+65,536, an entry empty only when unreferenced (no live empty string), every text satisfying what
+the inputs satisfy, a supported code page — for every call of the API (`step_pt`), hence
+`PoolOk` for ASCII text (`poolOk_of_pt`): the saved pool reads back as the in-memory pool -/
+def step_pt := @MsiProofs.AsciiLifecycle.step_pt
+def poolOk_of_pt := @MsiProofs.AsciiLifecycle.poolOk_of_pt
+def incref_pt := @MsiProofs.PoolText.incref_pt
+def decref_pt := @MsiProofs.PoolText.decref_pt
 
 end MsiProofs.C08
